@@ -49,6 +49,8 @@ class Event:
         self.info = info
 
     def loc(self):
+        if self.kind == "binop":
+            return self.body.file_line(self.info["stmt"]["loc"])
         return self.body.file_line(self.body.term(self.bb)["loc"])
 
 
@@ -283,6 +285,23 @@ class Env:
 
     def _flat(self, ctx, top_bb, chain, out, depth, max_depth):
         body = ctx.body
+        # arithmetic statements
+        for bi, blk in enumerate(body.blocks):
+            if blk["cleanup"]:
+                continue
+            for si, s in enumerate(blk["stmts"]):
+                if s["k"] == "assign" and s["rv"]["k"] == "binop":
+                    op = s["rv"]["op"]
+                    base = op.replace("WithOverflow", "").replace("Unchecked", "")
+                    if base in ("Add", "Sub", "Mul"):
+                        if s["loc"].get("expn", "").startswith("macro:") and "derive" in s["loc"].get("expn", ""):
+                            continue
+                        e = Event("binop", bi, ctx, None, (self.ev.operand(ctx, s["rv"]["a"]),
+                                                           self.ev.operand(ctx, s["rv"]["b"])),
+                                  op=base, raw_op=op, stmt=s, ty=body.locals[s["place"]["l"]]["ty"]["s"])
+                        e.info["top_bb"] = bi if top_bb is None else top_bb
+                        e.info["chain"] = chain
+                        out.append(e)
         for bi, t, c in body.calls():
             if body.blocks[bi]["cleanup"]:
                 continue
@@ -303,7 +322,46 @@ class Env:
                 nctx = self.ev.callee_ctx(ctx, bi, args)
                 if nctx is not None:
                     e.info["inlined"] = True
-                    self._flat(nctx, tb, chain + ((body, bi),), out, depth + 1, max_depth)
+                    self._flat(nctx, tb, chain + ((body, bi, ctx),), out, depth + 1, max_depth)
+
+    def event_facts(self, e):
+        """guard facts that hold when a flat event executes: those of its own block and of every call site on its chain"""
+        fs = []
+        for (cb, cbb, cctx) in e.info.get("chain", ()):
+            fs.extend(block_facts(self.ev, cctx, cbb))
+            fs.extend(self.creation_facts(cb, cctx))
+        fs.extend(block_facts(self.ev, e.ctx, e.bb))
+        fs.extend(self.creation_facts(e.body, e.ctx))
+        return fs
+
+    def creation_facts(self, body, ctx):
+        """for a closure body: the facts that hold where the closure is created in its parent (it cannot run before)"""
+        out = []
+        b = body
+        guard = 0
+        while b.is_closure and b.parent in self.F.bodies and guard < 5:
+            guard += 1
+            parent = self.F.bodies[b.parent]
+            pctx = self.ctx(parent, ctx.self_adt, ctx.bindings if isinstance(ctx.bindings, dict) and ctx.bindings else None)
+            for bi, blk in enumerate(parent.blocks):
+                for s in blk["stmts"]:
+                    if s["k"] == "assign" and s["rv"]["k"] == "aggregate" and s["rv"].get("ak") == "closure" \
+                            and s["rv"]["def"] == b.def_:
+                        out.extend(block_facts(self.ev, pctx, bi))
+            b = parent
+        return out
+
+    def event_prover(self, e, extra=(), extra_le=None):
+        return Prover(self.event_facts(e) + list(extra), self.ev, e.ctx, extra_le=extra_le,
+                      payload_facts=self.ev.payload_facts)
+
+    def len_of(self, adt, self_term):
+        """LEN(X) evaluated for the implementor reached through self_term (a reference term)"""
+        lb = self.R.method_body(self.R.T_LEN, "initial_len", adt) if self.R.T_LEN else None
+        if lb is None:
+            return None
+        nctx = Ctx(lb, params=(self_term,), self_adt=adt, stack=(lb.def_,))
+        return self.ev.local(nctx, 0)
 
     def prover(self, ctx, bb, extra=()):
         fs = list(block_facts(self.ev, ctx, bb)) + list(extra)
